@@ -73,6 +73,7 @@ JOBS = {
     ],
     "C10": [
         {"cmd": "c10-engine", "race": True, "batches": {"quick": 2, "thorough": 6}, "timeout": {"quick": 600, "thorough": 2400}},
+        {"cmd": "c10-tcp", "race": True, "batches": {"quick": 1, "thorough": 4}, "timeout": {"quick": 600, "thorough": 2400}},
     ],
     "C11": [
         {"cmd": "c11-proc", "race": False, "needs_mosn_binary": True, "batches": {"quick": 2, "thorough": 3}, "timeout": {"quick": 900, "thorough": 2400}},
